@@ -44,9 +44,98 @@ def run(ctx):
   pad_counts(ctx)
   parallel_lists(ctx)
   batch_unbatch(ctx)
+  redistribution(ctx)
+  slice_back(ctx)
   axis_names(ctx)
   from . import C07
   C07.squeeze_lint(ctx)
+
+
+def redistribution(ctx):
+  """P5: the flat list of new preconditioners (and metrics) is dealt back to the parameter states in order: state i
+  receives the slice [start_i, start_i + n_i) with start_0 = 0 and start_{i+1} = start_i + n_i, n_i its number of
+  statistics.  (An index that starts at 1, or advances by something else, silently hands every parameter its
+  neighbour's preconditioners whenever the lengths still happen to fit.)"""
+  m = ctx.model
+  cmpr = Comparer()
+  n_sites = 0
+  for q, fixed, cls, slot in D.MODES[:3]:
+    for metrics in (True, False):
+      v = {'scheduled': False, 'steps1': False, 'reuse': False, 'metrics': metrics}
+      fi, ev, r = D.eval_mode(m, q, fixed, v)
+      ctx.analysed(fi)
+      ctx.evaluations += 1
+      sc = ev.last_scope
+      allv = list(dict.fromkeys(x for v_ in sc.vars.values() for x in walk(v_)))
+      slices = [x for x in allv if x.op == 'slice' and x.args[0].op == 'phi']
+      loops = {(x.args[0], x.args[1]): x for x in allv if x.op == 'loop'}
+      tag = f'[{q},axis={fixed.get("batch_axis_name")},metrics={int(metrics)}]'
+      if not slices:
+        raise AnalysisError(f'{q}: no slice by a running index found where new preconditioners are handed back to the states')
+      for sl in dict.fromkeys(slices):
+        lo, hi, st_ = sl.args
+        n_sites += 1
+        ok0 = is_const(lo.args[2], 0)
+        n_t = None
+        if hi.op == 'bin' and hi.args[0] == '+' and (hi.args[1] is lo or hi.args[2] is lo):
+          n_t = hi.args[2] if hi.args[1] is lo else hi.args[1]
+        okn = n_t is not None and is_const(st_, None) and ('num_statistics' in show(n_t, maxdepth=4) or 'statistics' in show(n_t, maxdepth=4))
+        lp = loops.get((lo.args[0], lo.args[1]))
+        oka = False
+        if lp is not None and n_t is not None:
+          body = lp.args[3]
+          adv = spec_term(ev, 'i + n', {'i': lo, 'n': n_t})
+          if body.op == 'ite':
+            c = body.args[0]
+            # `if n == 0: <nothing> else: ...; idx += n`: the index is unchanged exactly when n is 0
+            is_zero_test = c.op == 'cmp' and c.args[0] == '==' and ((c.args[1] is n_t and is_const(c.args[2], 0)) or (c.args[2] is n_t and is_const(c.args[1], 0)))
+            oka = is_zero_test and body.args[1] is lo and cmpr.same(body.args[2], adv)
+          else:
+            oka = cmpr.same(body, adv)
+        ctx.ob('C13.P5', fi.short, f'running index starts at 0 {tag}', ok0,
+               f'the index into the flat list of new preconditioners must start at 0; it starts at `{show(lo.args[2], maxdepth=3)}`', ctx.loc(fi),
+               sample='idx = 0')
+        ctx.ob('C13.P5', fi.short, f'state i receives [idx, idx + n_i) {tag}', okn,
+               f'each state must receive the slice [idx : idx + its number of statistics]; got `{show(sl, maxdepth=5)[:160]}`', ctx.loc(fi),
+               sample='flat[idx : idx + num_statistics]')
+        ctx.ob('C13.P5', fi.short, f'index advances by n_i {tag}', oka,
+               f'after each state the index must advance by exactly that state\'s number of statistics; loop step `{show(lp.args[3], maxdepth=5)[:200] if lp is not None else "<not a loop variable>"}`',
+               ctx.loc(fi), sample='idx += num_statistics')
+  ctx.need('C13.P5', n_sites, 5, 'running-index slices in the three preconditioner-refresh functions')
+
+
+def slice_back(ctx):
+  """P6: each padded root coming out of the batched computation is cut back to the announced shape of ITS statistic:
+  p[:shape[0], :shape[1]] (1-d companions of the quantized mode: [:shape[0]]), shape being the entry of
+  `original_shapes` that travels with p."""
+  m = ctx.model
+  n = 0
+  for q, fixed, cls, slot in D.MODES[:3]:
+    v = {'scheduled': False, 'steps1': False, 'reuse': False, 'metrics': False}
+    fi, ev, r = D.eval_mode(m, q, fixed, v)
+    ctx.analysed(fi)
+    ctx.evaluations += 1
+    sc = ev.last_scope
+    allv = list(dict.fromkeys(x for v_ in sc.vars.values() for x in walk(v_)))
+    is_shape = lambda t_: t_.op == 'elem' and t_.args[0].op == 'sym' and t_.args[0].args[-1] == 'original_shapes'
+    uses_shape = lambda t_: any(is_shape(y) for y in walk(t_))
+    sites = [x for x in allv if x.op == 'sub' and (x.args[1].op == 'slice' or (x.args[1].op == 'tuple' and all(y.op == 'slice' for y in x.args[1].args)))
+             and uses_shape(x.args[1])]
+    tag = f'[{q},axis={fixed.get("batch_axis_name")}]'
+    if not sites:
+      raise AnalysisError(f'{q}: no slice back to the original shapes found')
+    for x in sites:
+      idx = x.args[1]
+      parts = list(idx.args) if idx.op == 'tuple' else [idx]
+      ok = len(parts) in (1, 2)
+      for k, sl in enumerate(parts):
+        lo, hi, st_ = sl.args
+        ok = ok and is_const(lo, None) and is_const(st_, None) and hi.op == 'sub' and is_shape(hi.args[0]) and is_const(hi.args[1], k)
+      n += 1
+      ctx.ob('C13.P6', fi.short, f'root cut back to its own announced shape {tag}', ok,
+             f'a padded result must be sliced to [:shape[0], :shape[1]] of its own entry of original_shapes; got `{show(idx, maxdepth=5)[:160]}`',
+             ctx.loc(fi), sample='p[:shape[0], :shape[1]]')
+  ctx.need('C13.P6', n, 3, 'slice-back sites')
 
 
 def _find_mod(tp):
@@ -118,22 +207,7 @@ def pad_counts(ctx):
     if dkind == 'pjit':
       # N == 0 special case: some value of the function chooses the device count itself when there is nothing to pad
       # ... and it must choose it exactly then: the arm holding D is the one taken when there are no statistics
-      def _when_empty(c):
-        """truth value of the test `c` when no parameter is preconditioned (None: not an emptiness test)"""
-        c = strip_casts(c)
-        if c.op == 'un' and c.args[0] == 'not':
-          v = _when_empty(c.args[1])
-          return None if v is None else not v
-        if c.op in ('list', 'mut', 'phi', 'loop') or (c.op == 'bin' and c.args[0] == '+' and any(y.op in ('list', 'mut') for y in c.args[1:])):
-          return False                      # truthiness of the (empty) list / of a zero count
-        if c.op == 'cmp' and len(c.args) == 3:
-          o, a_, b_ = c.args
-          if is_const(a_, 0):
-            a_, b_ = b_, a_
-            o = {'<': '>', '>': '<', '<=': '>=', '>=': '<='}.get(o, o)
-          if is_const(b_, 0) and not is_const(a_):
-            return {'==': True, '!=': False, '>': False, '<=': True, '>=': True, '<': False}.get(o)
-        return None
+      from ..lib import when_empty as _when_empty
       isD = lambda y: y.op == 'sym' and y.args[-1] == 'num_devices_for_pjit'
       cands = [x for x in dict.fromkeys(allv) if x.op == 'ite' and len(x.args) == 3 and any(isD(y) for y in x.args[1:]) and
                any(any(z in mods for z in walk(y)) for y in x.args[1:] if not isD(y))]
